@@ -14,7 +14,8 @@ for D in "$@"; do
   W=$(mktemp -d /tmp/seedre.XXXXXX)
   git -C /repo worktree add --detach -f "$W/w" HEAD >/dev/null 2>&1 || { echo "$D worktree failed"; rm -rf "$W"; continue; }
   RES=""; APPLIES=true
-  if (cd "$W/w" && git apply "$DIR/patch.diff" 2>/dev/null) && (cd "$W/w" && $GO build ./... >/dev/null 2>&1); then
+  P="$DIR/patch.diff"; [ -f "$DIR/patch_rebased.diff" ] && P="$DIR/patch_rebased.diff"   # ported by hand to code rewritten by a later repair
+  if (cd "$W/w" && git apply "$P" 2>/dev/null) && (cd "$W/w" && $GO build ./... >/dev/null 2>&1); then
     RES=$(VP_REPO="$W/w" /verif/check "$ID" quick 2>/dev/null | grep -E "^(OK|VIOLATION|INCONCLUSIVE)" | head -1)
     if ! echo "$RES" | grep -q "^VIOLATION"; then
       T=$(VP_REPO="$W/w" /verif/check "$ID" thorough 2>/dev/null | grep -E "^(OK|VIOLATION|INCONCLUSIVE)" | head -1)
@@ -27,7 +28,8 @@ for D in "$@"; do
   python3 - "$DIR" "$HEAD" "$APPLIES" "$RES" <<'PY'
 import json,sys
 d,head,applies,res=sys.argv[1:5]
-json.dump({'repo_head':head,'patch_applies':applies=='true','result':res,'caught':'VIOLATION' in res},open(d+'/recheck.json','w'),indent=1)
+import os
+json.dump({'repo_head':head,'patch_applies':applies=='true','rebased_patch_used':os.path.exists(d+'/patch_rebased.diff'),'result':res,'caught':'VIOLATION' in res},open(d+'/recheck.json','w'),indent=1)
 PY
   echo "$D applies=$APPLIES $(echo "$RES" | cut -c1-110)"
 done
